@@ -31,7 +31,8 @@ type aolGen struct {
 }
 
 var aolTopicNames = []string{"a", "ab", "a.b", "A", "a-", "abc", strings.Repeat("t", 70)}
-var aolBadTopics = []string{"", "a b", "a/b", strings.Repeat("t", 71), "é", "a\n", strings.Repeat("x", 256)}
+var aolBadTopics = []string{"", "a b", "a/b", strings.Repeat("t", 71), "é", "a\n", strings.Repeat("x", 256), strings.Repeat("t", 255), strings.Repeat("t", 300),
+	strings.Repeat("t", 5000), strings.Repeat("t", 5001)}
 
 func (g *aolGen) add(format string, a ...any) { g.lines = append(g.lines, fmt.Sprintf(format, a...)) }
 
